@@ -232,7 +232,7 @@ package linker
 // C10: an entry-point chunk must import, from the chunk that declares it, every symbol it re-exports. An export
 // is resolved to (file, ref); whether that ref is itself an import is recorded in the ImportsToBind table OF THAT
 // FILE, so the lookup that follows a re-export to its declaring symbol must read the resolved file's table.
-//@ flow follow-reexport-in-owning-file C10: func=(*linkerContext).computeCrossChunkDependencies ; in=linker ; site=lookup export.Ref ; mappath=c.graph.Files[export.SourceIndex].InputFile.Repr.Meta.ImportsToBind
+//@ flow follow-reexport-in-owning-file C10: func=(*linkerContext).computeCrossChunkDependencies ; in=linker ; site=lookup *.Ref ; mappath=*.Files[*.SourceIndex].InputFile.Repr.Meta.ImportsToBind
 
 // ----------------------------------------------------------------------------------------------
 // C16 (zero-annotation safety sweep): for ALL arguments (no precondition), no index, slice, nil-dereference,
